@@ -295,7 +295,7 @@ func init() {
 				}
 				do("geomsp", geomArgs(e, id, opt)...)
 			} else {
-				id := e.id()
+				id := zoomFieldOut([]string{e.id()})[0]
 				if rng.Intn(30) == 0 {
 					id = malformed(id)
 				}
